@@ -553,6 +553,31 @@ def apply(data, known=None):
     return data
 
 
+def _splice(n):
+    """An expanded helper used as a statement (`helper(..);`) becomes the helper's statements in the enclosing block, so that
+    rules which read a function as a sequence of top-level statements see the same sequence as before the extraction."""
+    if isinstance(n, list):
+        for x in n:
+            _splice(x)
+        return
+    if not isinstance(n, dict):
+        return
+    for key, v in n.items():
+        if isinstance(v, (dict, list)) and key not in ("sp", "osp"):
+            _splice(v)
+    if n.get("k") in ("Block", "Loop") and n.get("stmts"):
+        out = []
+        for st in n["stmts"]:
+            e = st.get("e") if st.get("k") == "SSemi" else st
+            if isinstance(e, dict) and e.get("k") == "Block" and e.get("inlined_call") and not e.get("label"):
+                out.extend(e.get("stmts") or [])
+                if e.get("expr") is not None:
+                    out.append({"k": "SSemi", "e": e["expr"]})
+            else:
+                out.append(st)
+        n["stmts"] = out
+
+
 def _expand_in(f, targets, fns, hi, data):
     if not targets:
         return
@@ -579,5 +604,7 @@ def _expand_in(f, targets, fns, hi, data):
         r = hi.rewrite(h["body"], targets, names, done)
         if r is not None:
             h["body"] = r
+        if done:
+            _splice(h["body"])
         if len(done) != n_mir and f["kind"] != "Closure":
             data["inline_notes"].append("%s: %d helper calls expanded in MIR, %d in HIR" % (f["path"], n_mir, len(done)))
